@@ -113,8 +113,8 @@ claim("C13", "E7+E4+E5",
       "auditing that list found two real panics (`table mark { } mark;`, `${a-12.5}`), both repaired. (X6) cyclic or too-deep includes are rejected "
       "before the recursive tree assembly and the rejected edges are honoured by it. (L1) a necessary condition of losslessness: a single owner of the "
       "source cursor, the lexer pulled only by Parser::advance, every advance paired with AstSink::token. (L3) a necessary condition of 'diagnostics "
-      "point inside the source on char boundaries': ranges handed to diagnostics are token/node ranges, not byte arithmetic (two `pos..pos+1` helpers "
-      "that can point one byte past the end are listed known findings). NOT decided: the lexer's and the contextual-rule rewriter's own loops (census "
+      "point inside the source on char boundaries': ranges handed to diagnostics are token/node ranges, not byte arithmetic (the two `pos..pos+1` helpers "
+      "that could point one byte past the end or inside a multi-byte character were found by this rule and repaired). NOT decided: the lexer's and the contextual-rule rewriter's own loops (census "
       "with read reasons only, under C15/X10), panic-freedom outside parser.rs/grammar (lexer, token tree, validation), the truth of the audited "
       "reasons (they were read, not proved), exact equality of concatenated token texts with the input.",
       "Trusted: rustc MIR and const evaluation (TokenSet values); the primitive table in tables/e7_tables.json (Parser::do_bump/advance consume one "
